@@ -6,8 +6,9 @@
    Engine: the harness engine (a recorder): frame = le32 umagic ++ le32 len ++ body, padded to 4; it tracks its own offset.
    Bytes are Z in 0..255.  Lev timestamps and the md5-derived file hashes are inputs (taken from the written files).
    Two booleans select repaired variants of the reader (dual model, see Props/C18.v):
-     fx_rot  : also verify levRotateTo.Crc32 against the running crc (the code does not: finding F-C18a)
-     fx_hdr  : ignore a newest chunk file whose 36-byte header is incomplete (the code fails the whole scan / panics: F-C18b) *)
+     fx_rot  : verify levRotateTo.Crc32 against the running crc AND the next chunk's levRotateFrom.Crc32 against the crc
+               of the log including that levRotateTo record (the code does neither: finding F-C18a)
+     fx_hdr  : skip a chunk file whose 36-byte header is incomplete (the code fails the whole scan / panics: F-C18b) *)
 From Coq Require Import ZArith List Bool Lia.
 From SH Require Import Common.Wrap.
 Import ListNotations.
@@ -211,7 +212,8 @@ Inductive event := EvApply (off : Z) (body : bytes) | EvSkip (off n : Z) | EvCom
 Inductive rerr := ENone | ECrc | EUnknownMagic | ESkipMismatch | EZip | ECfgArr | EUpgrade | ESeek | ESeekCrc
                 | EMetaPos | EApplyProto | EScan | EFromTooSmall | ENotFound | EFuel | EUnmodelled | EPanic.
 
-Record rst := { r_pos : Z; r_crc : Z; r_ts : Z; r_eoff : Z; r_cpos : Z (* commitPos of makeCommit *); r_ev : list event (* newest first *) }.
+Record rst := { r_pos : Z; r_crc : Z; r_ts : Z; r_eoff : Z; r_cpos : Z (* commitPos of makeCommit *); r_ev : list event (* newest first *);
+                r_rot : option Z (* set when the file ended with levRotateTo: the crc of the log including that record *) }.
 
 Inductive lev :=
 | LService (n : Z) (ts : option Z)      (* system lev of n bytes that is skipped *)
@@ -250,7 +252,7 @@ Definition classify (umagic : Z) (rest : bytes) : lev :=
 Definition do_commit (st : rst) : rst :=          (* makeCommit *)
   if r_cpos st =? r_pos st then st
   else {| r_pos := r_pos st; r_crc := r_crc st; r_ts := r_ts st; r_eoff := r_eoff st; r_cpos := r_pos st;
-          r_ev := EvCommit (r_pos st) (r_crc st) (r_ts st) :: r_ev st |}.
+          r_ev := EvCommit (r_pos st) (r_crc st) (r_ts st) :: r_ev st; r_rot := r_rot st |}.
 
 (* Engine.Skip(n) is always called (and recorded by the engine); None-like flag false = the position it returns differs
    from the reader's: the caller stops with ESkipMismatch *)
@@ -258,9 +260,9 @@ Definition do_skip (st : rst) (n : Z) (ts : option Z) (rest : bytes) : rst * boo
   if r_eoff st + n =? r_pos st + n then
     ({| r_pos := r_pos st + n; r_crc := crc_update (r_crc st) (takez n rest);
         r_ts := match ts with Some t => t | None => r_ts st end;
-        r_eoff := r_eoff st + n; r_cpos := r_cpos st; r_ev := EvSkip (r_eoff st) n :: r_ev st |}, true)
+        r_eoff := r_eoff st + n; r_cpos := r_cpos st; r_ev := EvSkip (r_eoff st) n :: r_ev st; r_rot := r_rot st |}, true)
   else ({| r_pos := r_pos st; r_crc := r_crc st; r_ts := r_ts st; r_eoff := r_eoff st + n; r_cpos := r_cpos st;
-           r_ev := EvSkip (r_eoff st) n :: r_ev st |}, false).
+           r_ev := EvSkip (r_eoff st) n :: r_ev st; r_rot := r_rot st |}, false).
 
 (* one file from the current position to EOF / RotateTo; returns (state, error) *)
 Fixpoint read_loop (fx_rot : bool) (umagic : Z) (fuel : nat) (st : rst) (rest : bytes) : rst * rerr :=
@@ -286,7 +288,8 @@ Fixpoint read_loop (fx_rot : bool) (umagic : Z) (fuel : nat) (st : rst) (rest : 
         else match do_skip st ROT_SIZE None rest with
              | (st', true) =>                                             (* finish = true: the loop exits BEFORE curPos/crc advance *)
                  (do_commit {| r_pos := r_pos st; r_crc := r_crc st; r_ts := r_ts st; r_eoff := r_eoff st';
-                               r_cpos := r_cpos st; r_ev := r_ev st' |}, ENone)
+                               r_cpos := r_cpos st; r_ev := r_ev st';
+                               r_rot := Some (crc_update (r_crc st) (takez ROT_SIZE rest)) |}, ENone)
              | (st', false) => (st', ESkipMismatch)
              end
     | LUser body n =>
@@ -297,7 +300,7 @@ Fixpoint read_loop (fx_rot : bool) (umagic : Z) (fuel : nat) (st : rst) (rest : 
         else
           let rb := pad4 rb0 in
           let st' := {| r_pos := r_pos st + rb; r_crc := crc_update (r_crc st) (takez rb rest); r_ts := r_ts st;
-                        r_eoff := newpos; r_cpos := r_cpos st; r_ev := EvApply (r_eoff st) body :: r_ev st |} in
+                        r_eoff := newpos; r_cpos := r_cpos st; r_ev := EvApply (r_eoff st) body :: r_ev st; r_rot := r_rot st |} in
           read_loop fx_rot umagic f st' (dropz rb rest)
     end
   end.
@@ -347,15 +350,15 @@ Fixpoint insert_hdr (h : hdr) (l : list hdr) : list hdr :=
   | x :: r => if h_pos h <? h_pos x then h :: x :: r else x :: insert_hdr h r
   end.
 
-(* ScanForFilesFromPos(.., 0, ..): every file's header must parse.  With fx_hdr a LAST file (writer order) whose header
-   is incomplete is ignored. *)
+(* ScanForFilesFromPos(.., 0, ..): every file's header must parse.  With fx_hdr a chunk file whose header is incomplete
+   (empty, 1..3 bytes, or a levRotateFrom shorter than 36 bytes: it cannot hold any event) is skipped. *)
 Fixpoint scan (fx_hdr : bool) (schema : Z) (files : list bytes) : list hdr + rerr :=
   match files with
   | [] => inl []
   | f :: r =>
       match read_header schema f with
       | HOk h => match scan fx_hdr schema r with inl l => inl (insert_hdr h l) | inr e => inr e end
-      | HShort p => if fx_hdr then match r with [] => inl [] | _ => inr EScan end else inr (if p then EPanic else EScan)
+      | HShort p => if fx_hdr then scan fx_hdr schema r else inr (if p then EPanic else EScan)
       | HBad => inr EScan
       end
   end.
@@ -370,25 +373,29 @@ Definition index_by_pos (position : Z) (l : list hdr) : nat := index_by_pos_from
 
 Record rres := { rr_ev : list event (* oldest first *); rr_err : rerr; rr_pos : Z; rr_crc : Z }.
 
-(* the loop over files of readAllFromPosition *)
-Fixpoint read_files (fx_rot : bool) (umagic : Z) (hs : list hdr) (from : Z) (si : option meta) (eoff ts : Z)
-         (ev : list event) (pos_after crc_after : Z) : rres :=
+(* the loop over files of readAllFromPosition.  [chain] = crc of the log up to and including the levRotateTo that ended the
+   previous file; the repaired reader (fx_chain) requires the next chunk's levRotateFrom.Crc32 to equal it *)
+Fixpoint read_files (fx_rot fx_chain : bool) (umagic : Z) (hs : list hdr) (from : Z) (si : option meta) (eoff ts : Z)
+         (ev : list event) (pos_after crc_after : Z) (chain : option Z) : rres :=
   match hs with
   | [] => {| rr_ev := rev ev; rr_err := ENone; rr_pos := pos_after; rr_crc := crc_after |}
   | h :: r =>
+      if fx_chain && match chain with Some c => negb (h_crc h =? c) | None => false end
+      then {| rr_ev := rev ev; rr_err := ECrc; rr_pos := pos_after; rr_crc := crc_after |}
+      else
       match seek (h_pos h) (h_crc h) ts from si (h_bytes h) with
       | inr e => {| rr_ev := rev ev; rr_err := e; rr_pos := pos_after; rr_crc := crc_after |}
       | inl (p, c, t, rest) =>
-          let st := {| r_pos := p; r_crc := c; r_ts := t; r_eoff := eoff; r_cpos := 0; r_ev := ev |} in
+          let st := {| r_pos := p; r_crc := c; r_ts := t; r_eoff := eoff; r_cpos := 0; r_ev := ev; r_rot := None |} in
           let '(st', e) := read_loop fx_rot umagic (S (length rest)) st rest in
           match e with
-          | ENone => read_files fx_rot umagic r 0 None (r_eoff st') (r_ts st') (r_ev st') (r_pos st') (r_crc st')
+          | ENone => read_files fx_rot fx_chain umagic r 0 None (r_eoff st') (r_ts st') (r_ev st') (r_pos st') (r_crc st') (r_rot st')
           | _ => {| rr_ev := rev (r_ev st'); rr_err := e; rr_pos := pos_after; rr_crc := crc_after |}
           end
       end
   end.
 
-Definition replay (fx_rot fx_hdr : bool) (umagic schema : Z) (files : list bytes) (from : Z) (si : option meta) : rres :=
+Definition replay3 (fx_rot fx_chain fx_hdr : bool) (umagic schema : Z) (files : list bytes) (from : Z) (si : option meta) : rres :=
   match scan fx_hdr schema files with
   | inr e => {| rr_ev := []; rr_err := e; rr_pos := 0; rr_crc := 0 |}
   | inl [] => {| rr_ev := []; rr_err := ENotFound; rr_pos := 0; rr_crc := 0 |}
@@ -401,8 +408,12 @@ Definition replay (fx_rot fx_hdr : bool) (umagic schema : Z) (files : list bytes
                    | Some (mp, mc, mt) => if negb (Nat.eqb (index_by_pos mp all) fi) || (from <? mp) then None else si
                    | None => None
                    end in
-        read_files fx_rot umagic (skipn fi all) from si' from 0 [] 0 0
+        read_files fx_rot fx_chain umagic (skipn fi all) from si' from 0 [] 0 0 None
   end.
+
+(* the two halves of the F-C18a repair go together: fx_rot = both checks *)
+Definition replay (fx_rot fx_hdr : bool) (umagic schema : Z) (files : list bytes) (from : Z) (si : option meta) : rres :=
+  replay3 fx_rot fx_rot fx_hdr umagic schema files from si.
 
 (* ---------- damage ---------- *)
 (* Truncate k: the global byte stream is cut at position k: later files disappear, the file containing k is cut *)
